@@ -404,6 +404,22 @@ impl FrameStack {
         }
     }
 }
+#[cfg(feature = "verif")]
+impl FrameStack {
+    /// Verification hook: a frame stack at an arbitrary depth with no trap or subroutine definitions.
+    pub fn verif_new_empty(debug_frames: bool, frame_no: u64) -> Self {
+        Self {
+            frame_no,
+            trap_defns: HashMap::new(),
+            sr_defns: HashMap::new(),
+            frames: debug_frames.then(Vec::new)
+        }
+    }
+    /// Verification hook: adds a trap definition.
+    pub fn verif_set_trap_def(&mut self, vect: u8, params: ParameterList) {
+        self.trap_defns.insert(vect, params);
+    }
+}
 impl Default for FrameStack {
     fn default() -> Self {
         Self::new(false)
